@@ -72,7 +72,7 @@ PROPS = {
                 "authorization query parameter or the cookie; the first 18 draws of every hub are systematic (a token correctly signed for the endpoint's role but expired / "
                 "not yet valid, on each endpoint through each carrier); for every draw a valid token (exp/nbf offsets 0, +-2 s, +-1 h) issued for one of the two roles and one mutation among: "
                 "alg none (with/without signature), lower-case alg, HMAC keyed with the public PEM / a guessed secret, correctly signed with another family's key, "
-                "truncated / empty / padded / std-alphabet signature, 2 or 4 segments, doubled separator, swapped segments, re-encoded payload, one base64 character "
+                "truncated / empty / padded / std-alphabet signature, the token truncated to nothing, to its header, to the middle of its payload (a credential that is present is judged, however short), 2 or 4 segments, doubled separator, swapped segments, re-encoded payload, one base64 character "
                 "flipped in each segment; one draw in five carries a mercure claim of a shape the claims structure cannot hold (list, string, number, true, publish as a string, "
                 "subscribe as an object, a number among the selectors), correctly signed half of the time: its payload does not decode, so it is invalid whatever its signature; "
                 "sent to the publish, subscribe or subscription-API endpoint. An independent verifier (Go crypto/* and encoding/base64 directly, "
@@ -131,7 +131,7 @@ PROPS = {
             "stages": [HUB_STAGE, TRANS_STAGE, SUBEV_STAGE, {"kind": "cases", "name": "index", "driver": "C05", "n": {"quick": 800, "thorough": 10000}},
                        {"kind": "cases", "name": "private-shared-ids", "driver": "PRIVID", "n": {"quick": 60, "thorough": 600}}],
             "rule": HUB_RULE + TRANS_RULE + " private-shared-ids: 2-9 publishes, private or public, with topics [t] or [t, u], whose ids are drawn from a pool of three and repeat the previous "
-                    "one half of the time (so private and public updates share ids), payloads distinct; three subscribers to t (anonymous, token covering u only, token covering t), live and (Bolt) "
+                    "one half of the time (so private and public updates share ids), payloads distinct; three subscribers to t (anonymous, token covering u and - which grants nothing - 'T', token covering t), live and (Bolt) "
                     "replaying from 'earliest': each stream must carry exactly the payloads its subscriber may receive (the models identify an update by its id: this stage covers what that hides). index: the operation histories of C05 against the real SubscriberList (private bit, claims, topics with the delimiter / escape characters): "
                     "who is handed a private update is decided there." + SUBEV_RULE, "trusted": HUB_TRUST + ["matching itself: C05/C11; token verification: C03"], "assumptions": []},
     "C06": {"binaries": ["verifh", "verifs", "verifr"],
@@ -212,7 +212,7 @@ PROPS = {
     "C08": {
         "stages": [{"kind": "cases", "name": "negotiation", "driver": "C08", "n": {"quick": 600, "thorough": 8000}}],
         "rule": "exhaustive carriers {absent, empty, X, Y}^3 (header, lastEventID, legacy Last-Event-ID) x compat {off, 7} x {local, bolt} on a fixed history, "
-                "then generated histories (0-7 ids over {a,b,c,d,'earliest'} with duplicates, retention size in {0,2,3} truncating them) x requested id in the "
+                "then generated histories (0-7 ids over {a,b,c,d,'earliest'} with duplicates, retention size in {0,2,3} truncating them, or - cleanup frequency 0 - not truncating them although a size is set; the retained history is read with bbolt from a copy of the file, not through the replay under test) x requested id in the "
                 "alphabet + {unknown, earliest} via a random carrier; observed: Last-Event-ID response header and the ids replayed before a sentinel. "
                 "non-trivial = an id was requested from a non-empty persistent history",
         "trusted": ["net/http header/query parsing", "bbolt cursor order"],
@@ -244,7 +244,7 @@ PROPS = {
         "stages": [{"kind": "cases", "name": "lookups", "driver": "C11", "n": {"quick": 1500, "thorough": 20000}}],
         "rule": "sequences of 5-30 (topic, selector) lookups, and 2-4 goroutines sharing one store, against stores without cache, of size 0, tiny "
                 "(1-3 entries x 1-2 shards) and default; selectors: literals, every RFC 6570 operator/modifier, malformed templates; topics: expansions for "
-                "random values over unreserved, reserved (gen-delims, sub-delims) and never-literal characters, near misses, a literal prefix followed by reserved characters, strings around the cache-key separator '_' and pairs built to collide under key concatenation; templates padded with blanks, tabs and newlines (not templates: they match only themselves); a corpus of two templates whose compiled-template cache keys share a 32-bit FNV-1a hash (found by a birthday search at run time), evaluated in both orders on stores of three sizes; every answer "
+                "random values over unreserved, reserved (gen-delims, sub-delims) and never-literal characters, near misses (a character dropped or added, the case of one letter flipped), a literal prefix followed by reserved characters, strings around the cache-key separator '_' and pairs built to collide under key concatenation; templates padded with blanks, tabs and newlines (not templates: they match only themselves); a corpus of two templates whose compiled-template cache keys share a 32-bit FNV-1a hash (found by a birthday search at run time), evaluated in both orders on stores of three sizes; every answer "
                 "compared with the cached model and with a fresh uncached evaluation by the library. non-trivial = sequence has both true and false answers",
         "trusted": ["uritemplate + Go regexp as oracle (Section variable tmatch); layer B (the template language itself) is not modelled",
                     "hashicorp LRU modelled as a map that may forget any entry at any time"],
